@@ -80,9 +80,18 @@ def perturb_strategy(ctx):
         st.fixed_dictionaries({"kind": st.just("mutant"), "m": mutate_strategy_lite(n_files)}),
         st.fixed_dictionaries({"kind": st.just("own"), "fi": st.integers(0, max(n_own - 1, 0))}),
         st.fixed_dictionaries({"kind": st.just("order"), "decls": order_strategy()}),
+        # raw token texts of every class with splices and odd punctuator runs (C13's generator): the lexer's pushback and
+        # lookahead paths are where the input channel (pipe, file, path argument) can make a difference
+        st.fixed_dictionaries({"kind": st.just("text"), "text": _token_texts(), "wrap": st.sampled_from(["plain", "stringize", "lines"])}),
+        st.fixed_dictionaries({"kind": st.just("text"), "text": _token_texts(), "wrap": st.sampled_from(["plain", "stringize", "lines"])}),
     )
     return st.fixed_dictionaries({"input": inp, "t": st.integers(0, 2), "E": st.booleans(),
                                   "perts": st.lists(pert, min_size=2, max_size=4)})
+
+
+def _token_texts():
+    from .c13 import token_texts
+    return token_texts()
 
 
 def mutate_strategy_lite(nf):
@@ -153,6 +162,14 @@ def _input_bytes(inp, ctx):
             return b"int x;\n", "x.c"
         p = ctx.data["own"][inp["fi"] % len(ctx.data["own"])]
         return open(p, "rb").read(), os.path.basename(p)
+    if k == "text":
+        t = inp["text"]
+        if inp["wrap"] == "stringize":
+            body = t.replace("\n", " ").replace("#", " ")
+            return ("#define STR(x) #x\nconst char *s = STR(%s);\nint after;\n" % body).encode("utf-8", "surrogateescape"), "text.c"
+        if inp["wrap"] == "lines":
+            return ("\n".join(t[i:i + 7] for i in range(0, len(t), 7)) + "\n").encode("utf-8", "surrogateescape"), "text.c"
+        return (t + "\n").encode("utf-8", "surrogateescape"), "text.c"
     if k == "mutant":
         from .c19 import apply_muts
         p = ctx.data["corpus"][inp["m"]["fi"] % len(ctx.data["corpus"])]
